@@ -225,6 +225,12 @@ func gen(t *rapid.T) pairsim.Scenario {
 				op.CancelMs = rapid.SampledFrom([]int{1, 3, 50}).Draw(t, "cancel")
 			case 3:
 				op.Mode = "sep"
+			case 4:
+				// No-Response (RFC 7967) next to block-wise bodies: whatever the handler produced and the
+				// responder then withheld must not stay behind in a send buffer
+				if op.Kind != "observe" {
+					op.NoResp = rapid.SampledFrom([]int{2, 8, 16, 26, 24, 10}).Draw(t, "noresp")
+				}
 			}
 		}
 		sc.Ops = append(sc.Ops, op)
